@@ -163,6 +163,22 @@ wsp_s = st.sampled_from([0, 0, 0, 1, 2, 3, 4])
 prov_s = st.sampled_from([None, None, "reopened", "reopened", "stripped"])
 drop_s = st.lists(st.sampled_from(["inode", "mtime", "size"]), max_size=3, unique=True)
 size_s = st.sampled_from([0, 1, 2, 2, 3, 5, 5, 8, 8, 8, 8, 8, 8, 8, 8, 998, 999, 1000, 1001, 2500])
+# checkout over checkout: link-type lists as apply(links=...) / odb cache_types take them, and one
+# checkout step = version per file (-1: not in that version), provenance of the old index, flags
+CS_LINKS = [["hardlink"], ["hardlink"], ["symlink"], ["symlink"], ["copy"], ["hardlink", "copy"],
+            ["symlink", "copy"], ["hardlink", "symlink"], ["reflink", "hardlink", "copy"],
+            ["reflink", "symlink", "copy"], ["reflink", "copy"]]
+cs_step_s = st.fixed_dictionaries({
+    "v": st.lists(st.sampled_from([0, 0, 1, 1, 2, 2, 3, -1]), min_size=4, max_size=4),
+    "old": st.sampled_from(["prev", "prev", "built", "built", "updated"]),
+    "state": st.sampled_from([True, True, True, False]),
+    "meta": st.booleans(),
+    "relink": st.sampled_from([False, False, False, True]),
+    "delete": st.sampled_from([True, True, False]),
+    "user": st.lists(st.tuples(st.integers(0, 3),
+                               st.sampled_from(["replace", "replace", "delete", "touch", "create"]),
+                               content_s, clock_s).map(list), max_size=2),
+})
 pos_s = st.lists(
     st.one_of(st.sampled_from([0, 1, 997, 998, 999, 1000, 1001, 1997, 1998, 1999, 2497, 2499]),
               st.integers(0, 3000)),
@@ -1439,6 +1455,262 @@ class C13Machine(TraceMachine):
             judge("index.update+md5(checkout)", kept)
         self.state.hits = []
         self.nt.add("checkout-then-mutation")
+
+    # ---- checkout over checkout: the tool itself rewrites the workspace and vouches for it --------
+    CS_FILES = ["foo", "bar", "baz", "sub/qux"]
+    CS_VERS = {   # per file: [v0, v1 = other bytes of v0's size, v2 = another size, v3 = bytes shared with others]
+        "foo": [b"foo: original contents\n", b"foo: ORIGINAL contents\n",
+                b"foo: a later and longer version of the contents\n", b"shared\r\nbytes\r\n"],
+        "bar": [b"bar\r\ncontents\r\n", b"BAR\r\ncontents\r\n", b"bar\ncontents\n", b"shared\r\nbytes\r\n"],
+        "baz": [b"BAZ!", b"baz?", b"", b"shared\r\nbytes\r\n"],
+        "sub/qux": [b"qux one\n", b"qux two\n", b"qux number three\n", b"BAZ!"],
+    }
+
+    @rule(links=st.sampled_from(CS_LINKS), via=st.sampled_from(["links", "links", "cache_types"]),
+          algo=st.sampled_from([0, 0, 1]), steps=st.lists(cs_step_s, min_size=2, max_size=4))
+    @traced
+    def checkout_switch(self, links, via, algo, steps):
+        """A workspace that index checkout populates and then RE-populates: checkout of version 1,
+        then compare(old, version k) + apply(..., state=state) for further versions in which files
+        change their hash (same size / other size), appear and disappear, with the link types
+        passed as apply(links=...) or taken from the cache odb's cache_types. `old` is the index
+        checked out before (only while the workspace still is what that checkout made it), or an
+        index built from the workspace (hashes through the state, what `dvc checkout` passes), or
+        build + update() from the index kept after the previous step. The user may replace / delete
+        / touch / create workspace files between two checkouts (never writes through a link: that
+        would alter the cache object).
+
+        After EVERY checkout step the hash of EVERY workspace file is asked for through the
+        state-backed channels (update() from the index that was just checked out when its meta was
+        refreshed, md5() of that index, State.get / get_many, hash_file(state=), staging build() of
+        each file and of the directory, md5(build(ws))); each answer must be the digest of the bytes
+        the path yields NOW - whatever they are: whether checkout wrote the right bytes is C09's."""
+        from dvc_data.hashfile.build import build as obuild
+        from dvc_data.hashfile.hash_info import HashInfo
+        from dvc_data.hashfile.meta import Meta
+        from dvc_data.index.build import build as ibuild
+        from dvc_data.index.checkout import apply, compare
+        from dvc_data.index.index import DataIndex, DataIndexEntry, FileStorage, ObjectStorage
+        from dvc_data.index.save import md5 as imd5
+        from dvc_data.index.update import update
+
+        name = ALGOS[algo]
+        self.ncs = getattr(self, "ncs", 0) + 1
+        top = os.path.join(self.dir, f"cs{self.ncs}")
+        src, ws = os.path.join(top, "src"), os.path.join(top, "ws")
+        os.makedirs(src)
+        os.makedirs(ws)
+        odb = ops.make_odb("local", os.path.join(top, "cache"), state=self.state, hash_name=name,
+                           type=list(links))
+        stage = ops.make_odb("local", os.path.join(top, "stage"), state=self.state, hash_name=name)
+        oids = {}
+        for nm in self.CS_FILES:
+            for k, data in enumerate(self.CS_VERS[nm]):
+                sp = os.path.join(src, f"{nm.replace('/', '_')}.{k}")
+                gen.write_file(sp, data)
+                oids[nm, k] = ref.ref_hash(data, name)
+                odb.add(sp, self.fs, oids[nm, k])
+        self.labels.add(f"co-switch:links={'+'.join(links)}:{via}")
+
+        def wpath(nm):
+            return os.path.join(ws, *nm.split("/"))
+
+        def ws_files():
+            out = []
+            for root, _dirs, files in os.walk(ws):
+                out.extend(os.path.join(root, f) for f in files if os.path.isfile(os.path.join(root, f)))
+            return sorted(out)
+
+        # the property's premise, kept for the paths of THIS workspace: a path never shows the same
+        # (inode, mtime, size) with other bytes (a recycled inode number + a same-tick timestamp of
+        # the real clock would break it; then - and only then - the harness clock moves the file on)
+        held = {}
+
+        def settle():
+            for _pass in (0, 1):   # hard links / symlinks share their inode with other paths
+                for q in ws_files():
+                    cur = ref.ref_hash(ref.read(q), "sha256")
+                    m = held.setdefault(q, {})
+                    t = self.triple(q)
+                    if m.get(t, cur) != cur:
+                        ns = os.stat(q).st_mtime_ns
+                        for _ in range(200_000):
+                            ns += 1000
+                            os.utime(q, ns=(ns, ns))
+                            t = self.triple(q)
+                            if m.get(t, cur) == cur:
+                                break
+                        else:
+                            raise HarnessError("settle: could not reach a fresh triple")
+                        self.cnt["clock_resteps"] += 1
+                        self.labels.add("co-switch:token-collision-restepped")
+                    m[t] = cur
+                    real = os.path.realpath(q)     # what the machine's own clock() steps away from
+                    self.seen.setdefault(real, set()).add(t)
+                    self.hist.setdefault(real, []).append(os.stat(q).st_mtime_ns)
+
+        def judge(route, idx, all_files=False):
+            n, seen = 0, set()
+            for key, e in idx.iteritems():
+                if e.meta is not None and e.meta.isdir:
+                    continue
+                q = os.path.join(ws, *key)
+                seen.add(q)
+                if e.hash_info:
+                    n += 1
+                    self.check(route, q, e.hash_info, name)
+                elif all_files:
+                    self.violate(f"no-hash:{route}", f"{route}: file entry {key} has no hash")
+            if all_files and sorted(seen) != ws_files():
+                self.violate(f"listing:{route}", f"{route}: entries do not cover exactly the files "
+                             f"of the workspace: {sorted(seen ^ set(ws_files()))}")
+            return n
+
+        def built():
+            self.cnt["queries"] += 1
+            idx = imd5(ibuild(ws, self.fs), state=self.state, name=name)
+            self.take_hits(name)
+            judge("index.md5(checkout2)", idx, all_files=True)
+            return idx
+
+        prev = kept = None
+        dirty = False
+        for si, step in enumerate(steps):
+            # -- the user edits the workspace between two checkouts
+            for fi, how, content, clock in step["user"]:
+                q = wpath(self.CS_FILES[fi % len(self.CS_FILES)])
+                if how == "create":
+                    if os.path.lexists(q) or not os.path.isdir(os.path.dirname(q)):
+                        continue
+                    gen.write_file(q, self.bytes_for(content, q))
+                    self.clock(q, clock, None)
+                    self.after_mutation(q, None, None)
+                elif not os.path.isfile(q):
+                    continue
+                elif how == "delete":
+                    os.unlink(q)
+                    self.after_mutation(q, None, None)
+                elif how == "touch":
+                    before, prev_ns = self.triple(q), os.stat(q).st_mtime_ns
+                    self.after_mutation(q, before, self.clock(q, clock, prev_ns), content_changed=False)
+                else:
+                    self.do_atomic_replace(q, content, clock)
+                dirty = True
+                settle()
+                self.labels.add("co-switch:user:" + how)
+
+            # -- the index the caller compares against
+            want_old = step["old"]
+            prev_ok = (prev is not None and not dirty
+                       and ws_files() == sorted(os.path.join(ws, *k) for k, _e in prev.iteritems()))
+            if not ws_files() and prev is None:
+                old, how_old = None, "none"
+            elif want_old == "prev" and prev_ok:
+                old, how_old = prev, "prev"
+            elif want_old == "updated" and kept is not None:
+                self.cnt["queries"] += 1
+                new = ibuild(ws, self.fs)
+                update(new, kept)
+                self.cnt["carried"] += judge("index.update(checkout2)", new)
+                old = imd5(new, state=self.state, name=name)
+                self.take_hits(name)
+                judge("index.update+md5(checkout2)", old, all_files=True)
+                how_old = "updated"
+            else:
+                old, how_old = built(), "built"
+            self.labels.add("co-switch:old=" + how_old)
+
+            # -- the version to check out
+            target = DataIndex()
+            target.storage_map.add_cache(ObjectStorage((), odb))
+            tsize = {}
+            for nm, k in zip(self.CS_FILES, step["v"]):
+                if k < 0:
+                    continue
+                key = tuple(nm.split("/"))
+                data = self.CS_VERS[nm][k % 4]
+                target[key] = DataIndexEntry(key=key, meta=Meta(size=len(data)),
+                                             hash_info=HashInfo(name, oids[nm, k % 4]))
+                tsize[wpath(nm)] = len(data)
+            before = {q: (ref.ref_hash(ref.read(q), name), os.path.getsize(q)) for q in ws_files()}
+            failed = []
+            diff = compare(old, target, relink=step["relink"], delete=step["delete"])
+            apply(diff, ws, self.fs, update_meta=step["meta"],
+                  state=self.state if step["state"] else None,
+                  links=list(links) if via == "links" else None,
+                  onerror=lambda *a: failed.append(a))
+            target.storage_map.add_data(FileStorage((), self.fs, ws))
+            self.mut_count += 1
+            self.labels.add(f"co-switch:step{min(si, 2) + 1}:state={int(step['state'])}"
+                            f":meta={int(step['meta'])}")
+            if step["relink"]:
+                self.labels.add("co-switch:relink")
+            if failed:
+                self.labels.add("co-switch:apply-reported-errors")
+                dirty = True
+            else:
+                dirty = False
+
+            # -- what this step did to the paths (labels / non-triviality only, never a verdict)
+            modified = []
+            for key, e in target.iteritems():
+                q = os.path.join(ws, *key)
+                if not os.path.isfile(q):
+                    continue
+                kind = ("symlink" if os.path.islink(q) else
+                        "hardlink" if os.stat(q).st_nlink > 1 else "copy")
+                self.labels.add("co-switch:got:" + kind)
+                if q in before and before[q][0] != e.hash_info.value:
+                    modified.append(q)
+                    self.mutated.add(q)
+                    self.labels.add(f"co-switch:modify:{kind}:" + (
+                        "same-size" if before[q][1] == tsize[q] else "other-size"))
+                elif q not in before:
+                    self.mutated.add(q)
+                    self.labels.add("co-switch:add")
+            if modified and si:
+                self.nt.add("second-checkout-modify")
+
+            # -- every state-backed channel, every workspace file
+            hits0 = self.cnt["hits_after_mutation"]
+            if step["meta"]:     # carry-over from the index that was just checked out
+                self.cnt["queries"] += 1
+                new = ibuild(ws, self.fs)
+                update(new, target)
+                self.cnt["carried"] += judge("index.update(checkout2)", new)
+            settle()
+            self.cnt["queries"] += 1
+            res = imd5(target, state=self.state, name=name)
+            self.take_hits(name)
+            judge("index.md5(kept,checkout2)", res)
+            files = ws_files()
+            given = bool((si + len(files)) % 2)
+            for q in files:
+                self.r_get(q, given)
+            if files:
+                self.r_get_many(list(files) + [os.path.join(ws, "never")], "all" if given else "none")
+            for q in files:
+                self.r_hash_file(q, name, not given)
+                self.cnt["queries"] += 1
+                _s, _m, obj = obuild(odb, q, self.fs, name, dry_run=True)
+                self.take_hits(name)
+                self.check("build(file,checkout2)", q, obj.hash_info, name)
+            if files:
+                self.cnt["queries"] += 1
+                _s, _m, obj = obuild(stage, ws, self.fs, name)
+                self.take_hits(name)
+                listed = set()
+                for key, _m2, hi in obj:
+                    listed.add(os.path.join(ws, *key))
+                    self.check("build(dir,checkout2)", os.path.join(ws, *key), hi, name)
+                if sorted(listed) != files:
+                    self.violate("listing:build(dir,checkout2)", "staged tree does not list exactly "
+                                 f"the files of the workspace: {sorted(listed ^ set(files))}")
+            kept = built()
+            if modified and si and self.cnt["hits_after_mutation"] > hits0:
+                self.labels.add("co-switch:state-hit-after-second-checkout")
+            prev = target
+        self.state.hits = []
 
     def plant_row(self, p, kind, bump, rname):
         """A row written by another release of the tool sharing the state directory, with a token
